@@ -56,6 +56,7 @@ type Contract struct {
 	FrameChecked bool
 	NoFrame      bool
 	AssumedFrame bool // the declared frame is trusted (as for an extern) while the body is still checked for its other clauses
+	OnlyCalledBy []string // the only functions of the package allowed to call this one
 	WritesImmut  []string // waivers: heaps declared immutable that this function may write on objects it owns
 	CallbackPure bool
 	Rnd64        bool
@@ -143,7 +144,7 @@ type RecFunc struct {
 	Body   string // SMT body (raw)
 }
 
-var clauseKW = regexp.MustCompile(`^(requires|ensures|decreases|recgroup|modifies|held|acquires|loop|option|props|assert|before|observe|count|atreturn|tick|owns)\b`)
+var clauseKW = regexp.MustCompile(`^(requires|ensures|decreases|recgroup|modifies|held|acquires|loop|option|props|assert|before|observe|count|atreturn|tick|owns|only_called_by)\b`)
 var labelRe = regexp.MustCompile(`^([A-Za-z][A-Za-z0-9_\-]*):\s+(.*)$`)
 
 func parseClause(src string, line int) (*Clause, error) {
@@ -381,6 +382,14 @@ func parseContractFile(path, pkgPath string) (*PkgSpec, error) {
 				return nil, fail(err)
 			}
 			cur.AtReturn = append(cur.AtReturn, c)
+		case strings.HasPrefix(t, "only_called_by "):
+			// only_called_by A, (*T).m: no other function of the package may call this one (a design constraint such as
+			// "only the expansion strategy swaps the input buffer")
+			for _, n := range strings.Split(strings.TrimPrefix(t, "only_called_by "), ",") {
+				if n = strings.TrimSpace(n); n != "" {
+					cur.OnlyCalledBy = append(cur.OnlyCalledBy, n)
+				}
+			}
 		case strings.HasPrefix(t, "owns "):
 			// owns TimeSlot.End: this function reassigns an otherwise immutable field on objects only it can reach
 			cur.WritesImmut = append(cur.WritesImmut, strings.Fields(strings.TrimPrefix(t, "owns "))...)
